@@ -1,5 +1,6 @@
 """Subprocess worker: run scenarios under the environment of this interpreter (used for C18 / replays)."""
 import json
+import os
 import sys
 
 from . import convert_driver as CD
@@ -10,7 +11,7 @@ def main(inp, outp):
     with open(inp) as f:
         scs = json.load(f)
     tables = {}
-    res = CD.run_all(scs)
+    res = CD.run_all(scs, procs=int(os.environ.get("VERIF_WORKER_PROCS", CD.NCPU)))
     with open(outp, "w") as f:
         json.dump(res, f, default=str)
 
